@@ -1,9 +1,11 @@
 PROP = {
     "id": "C17",
     "theorem_modules": ["Verif.Properties.C17"],
-    "min_theorems": 3,
+    "min_theorems": 5,
     "required_theorems": [
         "Verif.Properties.C17.bytes_nil_iff",
+        "Verif.Properties.C17.bytes_roundtrip",
+        "Verif.Properties.C17.string_roundtrip_partial",
     ],
     "streams": [
         {"name": "text", "driver": "drv_text",
